@@ -29,6 +29,9 @@ struct Inst {
     expires: i64,
     /// the instance lists the object under test (otherwise another TOI only)
     lists: bool,
+    /// this instance carries no EXT_TIME although the scenario's other instances do (another head-end, a sender
+    /// restarted without in-band SCT): it is judged on the receiver's own clock, uncorrected
+    no_sct: bool,
 }
 
 #[derive(Clone, Debug)]
@@ -95,7 +98,7 @@ fn run(s: &Scn, skew: f64, data: &[u8]) -> Result<Outcome, util::PanicInfo> {
     // (receiver instant, packet)
     let mut timeline: Vec<(f64, Vec<u8>)> = vec![];
     for inst in &s.insts {
-        for (n, p) in fdt_packets(tsi, inst, s.sct, s.sct_hi_only, data.len(), &md5, e).into_iter().enumerate() {
+        for (n, p) in fdt_packets(tsi, inst, s.sct && !inst.no_sct, s.sct_hi_only, data.len(), &md5, e).into_iter().enumerate() {
             timeline.push((inst.ts_emit + s.transit + skew + n as f64 * 1e-4, p));
         }
     }
@@ -136,7 +139,7 @@ fn expected(s: &Scn, skew: f64) -> bool {
     arrivals.sort_by(|a, b| a.ts_emit.partial_cmp(&b.ts_emit).unwrap());
     let _ = first_fdt;
     // estimate of the sender clock through instance i at receiver instant tr
-    let est = |i: &Inst, tr: f64| if s.sct { tr - (i.ts_emit + s.transit + skew - i.ts_emit) } else { tr };
+    let est = |i: &Inst, tr: f64| if s.sct && !i.no_sct { tr - (i.ts_emit + s.transit + skew - i.ts_emit) } else { tr };
     // candidate start instants: the object's first packet (instances complete before it), or the
     // completion of an instance arriving after the object
     for i in arrivals.iter().filter(|i| i.lists) {
@@ -180,14 +183,14 @@ fn main() {
                     for &check in &[true, false] {
                         for &object_first in &[false, true] {
                             for &transit in &[0.0f64, 0.2] {
-                                for variant in 0..5 {
+                                for variant in 0..7 {
                                     // publish at sender second pub_t (100.37 in the quick tier); Expires = floor + dur
                                     let expires = 100 + dur;
                                     let ts_obj_rel = expires as f64 + off;
                                     if !object_first && ts_obj_rel <= pub_t + 1.0 {
                                         continue; // the object would travel before its FDT
                                     }
-                                    let mut insts = vec![Inst { id: 1, ts_emit: pub_t, expires, lists: true }];
+                                    let mut insts = vec![Inst { id: 1, ts_emit: pub_t, expires, lists: true, no_sct: false }];
                                     let (ts_obj, inband_fti);
                                     if object_first {
                                         // the object is emitted first; the FDT instance is emitted later, at expires+off
@@ -202,12 +205,12 @@ fn main() {
                                         2 => {
                                             // renewed by a later instance (valid one hour more) emitted 1 s before the object
                                             let t2 = if object_first { insts[0].ts_emit + 1.0 } else { ts_obj - 1.0 };
-                                            insts.push(Inst { id: 2, ts_emit: t2, expires: t2.floor() as i64 + 3600, lists: true });
+                                            insts.push(Inst { id: 2, ts_emit: t2, expires: t2.floor() as i64 + 3600, lists: true, no_sct: false });
                                         }
                                         3 => {
                                             // a second instance that is already expired when emitted
                                             let t2 = if object_first { insts[0].ts_emit + 1.0 } else { ts_obj - 1.0 };
-                                            insts.push(Inst { id: 2, ts_emit: t2, expires: t2.floor() as i64 - 20, lists: true });
+                                            insts.push(Inst { id: 2, ts_emit: t2, expires: t2.floor() as i64 - 20, lists: true, no_sct: false });
                                         }
                                         4 => {
                                             // a newer, valid instance that does NOT list the object (it announces another one):
@@ -216,7 +219,18 @@ fn main() {
                                             if t2 <= insts[0].ts_emit {
                                                 continue;
                                             }
-                                            insts.push(Inst { id: 2, ts_emit: t2, expires: t2.floor() as i64 + 3600, lists: false });
+                                            insts.push(Inst { id: 2, ts_emit: t2, expires: t2.floor() as i64 + 3600, lists: false, no_sct: false });
+                                        }
+                                        5 | 6 => {
+                                            // like 2 (renewed by a later instance valid one hour more) and 3 (a second instance already
+                                            // expired when emitted), but the SECOND instance carries no EXT_TIME: the offset observed
+                                            // in the first one is not its to use
+                                            if !sct {
+                                                continue;
+                                            }
+                                            let t2 = if object_first { insts[0].ts_emit + 1.0 } else { ts_obj - 1.0 };
+                                            let exp2 = if variant == 5 { t2.floor() as i64 + 3600 } else { t2.floor() as i64 - 20 };
+                                            insts.push(Inst { id: 2, ts_emit: t2, expires: exp2, lists: true, no_sct: true });
                                         }
                                         _ => {}
                                     }
@@ -266,7 +280,7 @@ fn main() {
                 any |= !o.writers.is_empty() || o.fdt_callbacks > 0;
                 let delivered = o.writers.iter().any(|w| w.0.ends_with("C"));
                 let want = expected(s, skew);
-                let f = |v: Violation| v.with("sct", s.sct).with("sct_hi_only", s.sct_hi_only).with("cleanup_calls", s.cleanup).with("check", s.check).with("object_first", s.object_first).with("instances", s.insts.len() as u64).with("skew_zero", skew == 0.0).with("skew_sign", if skew < 0.0 { "neg" } else { "pos" }).with("skew_abs_gt_1day", skew.abs() > 86400.0);
+                let f = |v: Violation| v.with("sct", s.sct).with("sct_hi_only", s.sct_hi_only).with("cleanup_calls", s.cleanup).with("check", s.check).with("object_first", s.object_first).with("instances", s.insts.len() as u64).with("an_instance_without_sct", s.insts.iter().any(|i| i.no_sct)).with("skew_zero", skew == 0.0).with("skew_sign", if skew < 0.0 { "neg" } else { "pos" }).with("skew_abs_gt_1day", skew.abs() > 86400.0);
                 if delivered != want {
                     cr.violations.push(f(Violation::new(if want { "valid_fdt_but_not_delivered" } else { "delivered_through_expired_fdt" }, format!(
                         "receiver skew {} s: object {} although the reference says {} (writers {:?}); scenario {:?}", skew, if delivered { "delivered" } else { "not delivered" }, if want { "deliver" } else { "do not deliver" }, o.writers, s)))
@@ -282,7 +296,7 @@ fn main() {
                     cr.violations.push(f(Violation::new("bytes", "completed with wrong bytes".to_string())).witness(wit.clone()));
                 }
                 // metamorphic: with SCT (or checking off) the skew must not change the writer log
-                if s.sct || !s.check {
+                if (s.sct && s.insts.iter().all(|i| !i.no_sct)) || !s.check {
                     match &ref_out {
                         None => ref_out = Some(o.writers.clone()),
                         Some(r) => {
